@@ -53,23 +53,58 @@ func stripNullValues(m protoreflect.Message) {
 }
 
 // equalModuloNullValue: equal once unset google.protobuf.Value fields and ones holding null are identified.
-func equalModuloNullValue(a, b proto.Message) bool {
+func equalModuloNullValue(a, b proto.Message, bodyFields []string) bool {
 	ca, cb := proto.Clone(a), proto.Clone(b)
 	stripNullValues(ca.ProtoReflect())
 	stripNullValues(cb.ProtoReflect())
-	return proto.Equal(ca, cb)
+	n := normEmptyFields([]proto.Message{ca, cb}, bodyFields)
+	return proto.Equal(n[0], n[1])
+}
+
+// normEmptyFields identifies "absent" and "present but empty" for the named top-level singular
+// message fields. A REST body / response_body selector has one representation for both
+// (an empty JSON object or an empty body), so the distinction cannot cross a REST leg.
+func normEmptyFields(msgs []proto.Message, fields []string) []proto.Message {
+	out := make([]proto.Message, len(msgs))
+	for i, msg := range msgs {
+		out[i] = msg
+		if msg == nil {
+			continue
+		}
+		for _, f := range fields {
+			if f == "" || f == "*" {
+				continue
+			}
+			m := out[i].ProtoReflect()
+			fd := m.Descriptor().Fields().ByName(protoreflect.Name(f))
+			if fd == nil || fd.Message() == nil || fd.IsList() || fd.IsMap() || !m.Has(fd) {
+				continue
+			}
+			empty := true
+			m.Get(fd).Message().Range(func(protoreflect.FieldDescriptor, protoreflect.Value) bool { empty = false; return false })
+			if empty {
+				c := proto.Clone(out[i])
+				c.ProtoReflect().Clear(fd)
+				out[i] = c
+			}
+		}
+	}
+	return out
 }
 
 // seqDiff compares two message sequences; prefixOnly accepts got being a strict prefix.
 // kind "" = equal; "value-null" = differ only by unset google.protobuf.Value fields that arrived as null.
-func seqDiff(want, got []proto.Message, prefixOnly bool) (diff string, kind string) {
+func seqDiff(want, got []proto.Message, prefixOnly bool, bodyFields ...string) (diff string, kind string) {
 	if len(got) > len(want) || (!prefixOnly && len(got) != len(want)) {
 		return fmt.Sprintf("count: want %d got %d", len(want), len(got)), "count"
+	}
+	if len(bodyFields) > 0 {
+		want, got = normEmptyFields(want, bodyFields), normEmptyFields(got, bodyFields)
 	}
 	for i := range got {
 		if got[i] == nil || !proto.Equal(want[i], got[i]) {
 			d := fmt.Sprintf("message %d differs:\n want %s\n got  %s", i, shortMsg(want[i]), shortMsg(got[i]))
-			if got[i] != nil && equalModuloNullValue(want[i], got[i]) {
+			if got[i] != nil && equalModuloNullValue(want[i], got[i], bodyFields) {
 				if kind == "" {
 					diff, kind = d, "value-null"
 				}
@@ -144,10 +179,10 @@ func init() {
 			"0..8 generated AllTypes/ParameterValues messages x per-frame compressed flags; oracle: conservation/order of sent vs independently decoded messages on both legs. " +
 			"non-trivial = client and backend differ in protocol, codec or compression, or >=2 messages on a leg; distinct by (cell, codecs, compressions, counts, frame pattern)",
 		Assume: []string{"Go stdlib compress/gzip, protobuf-go proto/protojson are the reference codecs", "harness encoders/decoders (wire.go, client.go, backend.go)"},
-		N:      func(t string) int { return tierN(t, 4000, 80000) },
+		N:      func(t string) int { return tierN(t, 20000, 400000) },
 		Run:    runC01,
 		MinimaFor: func(t string) map[string]int {
-			return map[string]int{"ok": tierN(t, 1500, 30000), "backend-invoked": tierN(t, 2000, 40000)}
+			return map[string]int{"ok": tierN(t, 7500, 150000), "backend-invoked": tierN(t, 10000, 200000)}
 		},
 	})
 }
@@ -187,6 +222,7 @@ func chunkPlan(r *rand.Rand) []int {
 func checkC01(c *Ctx, i int, s *Scenario, e *Exec, r *rand.Rand) {
 	if e.Panic != nil {
 		c.Count("panic")
+		c.Logf("PANIC in case %d:\n%s", i, e.Describe())
 		return
 	}
 	o := e.Out
@@ -202,6 +238,13 @@ func checkC01(c *Ctx, i int, s *Scenario, e *Exec, r *rand.Rand) {
 		c.Nontrivial(fmt.Sprintf("%s|%s>%s|%s>%s|%d/%d|%v|%v", s.Cell(), s.Req.Codec, bo.Codec, s.Req.Comp, bo.Comp, len(s.Req.Msgs), len(s.Script.Msgs), s.Req.FrameComp, s.Script.FrameComp))
 	}
 	feat := fmt.Sprintf("%s->%s", s.Req.Form, bo.target())
+	var reqBF, respBF []string
+	if bo.Binding != nil {
+		reqBF, respBF = append(reqBF, bo.Binding.Body), append(respBF, bo.Binding.RespBody)
+	}
+	if s.Req.Binding != nil {
+		reqBF, respBF = append(reqBF, s.Req.Binding.Body), append(respBF, s.Req.Binding.RespBody)
+	}
 	if o.OK() {
 		c.Count("ok")
 		if bo.Invocations != 1 {
@@ -212,13 +255,13 @@ func checkC01(c *Ctx, i int, s *Scenario, e *Exec, r *rand.Rand) {
 			c.Violate(i, "error-became-success/"+feat, e.Describe())
 			return
 		}
-		if d, k := seqDiff(s.Req.Msgs, bo.Msgs, false); k == "value-null" {
+		if d, k := seqDiff(s.Req.Msgs, bo.Msgs, false, reqBF...); k == "value-null" {
 			c.Violate(i, "unset-Value-field-delivered-as-null/request", fmt.Sprintf("%s\n%s", d, e.Describe()))
 		} else if d != "" {
 			c.Violate(i, "request-altered/"+feat+reqFeat(s, bo), fmt.Sprintf("backend did not observe the request messages the client sent: %s\n%s", d, e.Describe()))
 			return
 		}
-		if d, k := seqDiff(wantC, o.Msgs, false); k == "value-null" {
+		if d, k := seqDiff(wantC, o.Msgs, false, respBF...); k == "value-null" {
 			c.Violate(i, "unset-Value-field-delivered-as-null/response", fmt.Sprintf("%s\n%s", d, e.Describe()))
 		} else if d != "" {
 			c.Violate(i, "response-altered/"+feat+respFeat(s, e), fmt.Sprintf("client did not observe the response messages the handler produced: %s\n%s", d, e.Describe()))
@@ -229,7 +272,7 @@ func checkC01(c *Ctx, i int, s *Scenario, e *Exec, r *rand.Rand) {
 	c.Count("not-ok")
 	// never data that was not sent, even on failure
 	if bo.Invocations > 0 && bo.ReadErr == nil {
-		if d, k := seqDiff(s.Req.Msgs, bo.Msgs, true); k == "value-null" {
+		if d, k := seqDiff(s.Req.Msgs, bo.Msgs, true, reqBF...); k == "value-null" {
 			c.Violate(i, "unset-Value-field-delivered-as-null/request", fmt.Sprintf("%s\n%s", d, e.Describe()))
 		} else if d != "" {
 			c.Violate(i, "request-altered-on-error/"+feat+reqFeat(s, bo), fmt.Sprintf("%s\n%s", d, e.Describe()))
@@ -237,7 +280,7 @@ func checkC01(c *Ctx, i int, s *Scenario, e *Exec, r *rand.Rand) {
 		}
 	}
 	if len(o.Msgs) > 0 {
-		if d, k := seqDiff(wantC, o.Msgs, true); k == "value-null" {
+		if d, k := seqDiff(wantC, o.Msgs, true, respBF...); k == "value-null" {
 			c.Violate(i, "unset-Value-field-delivered-as-null/response", fmt.Sprintf("%s\n%s", d, e.Describe()))
 		} else if d != "" {
 			c.Violate(i, "response-altered-on-error/"+feat+respFeat(s, e), fmt.Sprintf("%s\n%s", d, e.Describe()))
